@@ -124,10 +124,15 @@ End Word.
 
 (** ** find_function_name_position(content, line, func_name) -> (start, end) in bytes *)
 Definition def_sp : text := [100; 101; 102; 32].   (* "def " *)
-Definition find_function_name_position (content : text) (line : N) (name : text) : res (N * N) :=
+Definition def_tab : text := [100; 101; 102; 9].   (* "def" and a tab *)
+(** since fix faffab5 the keyword may be followed by a tab:
+    [line.find("def ").or_else(|| line.find("def\t"))] *)
+Definition find_def_kw (lc : text) : option N :=
+  match find def_sp lc with Some p => Some p | None => find def_tab lc end.
+Definition find_function_name_position_with (kw : text -> option N) (content : text) (line : N) (name : text) : res (N * N) :=
   match nth_opt (lines content) (line - 1) with
   | Some lc =>
-      match (match find def_sp lc with
+      match (match kw lc with
              | Some def_pos =>
                  of_opt (slice_from lc (def_pos + 4)) >>= fun after_def =>
                  Ok (match find name after_def with
@@ -146,6 +151,10 @@ Definition find_function_name_position (content : text) (line : N) (name : text)
       end
   | None => Ok (0, blen name)
   end.
+Definition find_function_name_position := find_function_name_position_with find_def_kw.
+(** before fix faffab5: only "def " (with a space) was looked for; a tab behind the keyword sent
+    the search to the whole-line fallback, which stops at the first occurrence of the name *)
+Definition find_function_name_position_old := find_function_name_position_with (find def_sp).
 
 (** ** parameter_has_annotation(lines, line, end_char) *)
 Definition colon : cp := 58.
